@@ -60,3 +60,13 @@ Theorem C12_locations_recoverable : forall l : list bytes,
   split_on SPACE [] (join_with SPACE l) = l.
 Proof. exact locations_recoverable. Qed.
 Print Assumptions C12_locations_recoverable.
+
+(** the audio theorem with the receiver model plugged in *)
+From Sameold Require Import Model.Receiver.
+Theorem C12_child_audio_over_the_receiver_model : forall c pad fuel q hc ok k pos s inp ph o o1 inp0,
+  app rx item (rxm_next c) (rxm_flush c pad) fuel q hc ok k pos s inp ph o = Some o1 ->
+  inp = skipn pos inp0 -> (pos <= length inp0)%nat ->
+  Forall (child_ok item inp0) (o_spawns _ o) ->
+  Forall (child_ok item inp0) (o_spawns _ o1).
+Proof. exact samedec_over_receiver_audio. Qed.
+Print Assumptions C12_child_audio_over_the_receiver_model.
